@@ -357,3 +357,508 @@ Qed.
 
 Lemma authorizer_empty_wf : wf_auth authorizer_empty.
 Proof. split; [intros []; constructor|split; [constructor|reflexivity]]. Qed.
+
+(* ================================================================ Part 3: traversals, methods *)
+
+(* a tree holds exactly the rules of a view *)
+Definition repr (t : tree) (v : view) : Prop :=
+  forall pf n, slot_of t pf n = option_map acc (v pf n).
+
+(* S lists (at least) every name that has a rule *)
+Definition covers (S : list string) (v : view) : Prop := forall pf n, v pf n <> None -> In n S.
+
+Lemma acc_inj a b : acc a = acc b -> a = b.
+Proof. destruct a, b; cbn; congruence. Qed.
+
+Lemma omap_acc_none (o : option level) : option_map acc o = None -> o = None.
+Proof. destruct o; [discriminate|reflexivity]. Qed.
+
+Lemma repr_some t v n lf : repr t v -> tree_get n t = Some lf ->
+  l_exact lf = option_map acc (v false n) /\ l_prefix lf = option_map acc (v true n).
+Proof.
+  intros R G. split; [rewrite <- (R false n)|rewrite <- (R true n)]; unfold slot_of; rewrite G; reflexivity.
+Qed.
+
+Lemma repr_none t v n : repr t v -> tree_get n t = None -> v false n = None /\ v true n = None.
+Proof.
+  intros R G. split; apply omap_acc_none; [rewrite <- (R false n)|rewrite <- (R true n)];
+    unfold slot_of; rewrite G; reflexivity.
+Qed.
+
+Lemma enforce_grants l need : enforce (acc l) need = if grants l need then Allow else Deny.
+Proof. destruct l, need; reflexivity. Qed.
+
+Lemma existsb_ext' {A} (f g : A -> bool) l : (forall x, f x = g x) -> existsb f l = existsb g l.
+Proof. intros H. induction l as [|x l IH]; cbn; [reflexivity|]. rewrite H, IH. reflexivity. Qed.
+
+Lemma existsb_filter {A} (g h : A -> bool) l : existsb g (filter h l) = existsb (fun x => h x && g x) l.
+Proof.
+  induction l as [|x l IH]; cbn; [reflexivity|]. destruct (h x); cbn; rewrite IH; reflexivity.
+Qed.
+
+Lemma existsb_flat_map {A B} (g : B -> bool) (f : A -> list B) l :
+  existsb g (flat_map f l) = existsb (fun x => existsb g (f x)) l.
+Proof. induction l as [|x l IH]; cbn; [reflexivity|]. rewrite existsb_app, IH. reflexivity. Qed.
+
+(* ---- WalkPath ---- *)
+
+Definition wp (L : list string) (t : tree) : list (string * leaf) :=
+  flat_map (fun p => match tree_get p t with Some lf => [(p, lf)] | None => [] end) L.
+
+Definition lp_step (v : view) (cur : option level) (p : string) : option level :=
+  match v true p with Some l => Some l | None => cur end.
+
+Lemma gp_pre seg t v : repr t v -> forall L, (forall x, In x L -> x <> seg) -> forall rest cur,
+  get_policy_loop seg (wp L t ++ rest) (option_map acc cur)
+  = get_policy_loop seg rest (option_map acc (fold_left (lp_step v) L cur)).
+Proof.
+  intros R. induction L as [|x L IH]; intros Hne rest cur; [reflexivity|].
+  cbn [wp flat_map fold_left]. fold (wp L t).
+  assert (Hx : String.eqb x seg = false).
+  { apply (eqb_neq _ String.eqb_eq). apply Hne. left; reflexivity. }
+  assert (HL : forall y, In y L -> y <> seg) by (intros y Hy; apply Hne; right; exact Hy).
+  destruct (tree_get x t) as [lf|] eqn:G.
+  - destruct (repr_some _ _ _ _ R G) as [_ Hp]. cbn [app get_policy_loop]. rewrite Hx.
+    assert (E : match l_prefix lf with Some p => Some p | None => option_map acc cur end
+                = option_map acc (lp_step v cur x)).
+    { rewrite Hp. unfold lp_step. destruct (v true x); reflexivity. }
+    destruct (l_exact lf); rewrite E; apply IH, HL.
+  - destruct (repr_none _ _ _ R G) as [_ Hp]. cbn [app]. unfold lp_step at 2. rewrite Hp. apply IH, HL.
+Qed.
+
+Lemma get_policy_spec t v seg : repr t v -> get_policy seg t = option_map acc (applicable v seg).
+Proof.
+  intros R. unfold get_policy, walk_path, applicable, longest_prefix.
+  destruct (prefixes_snoc seg) as (pre & -> & Hne).
+  change (flat_map _ (pre ++ [seg])) with (wp (pre ++ [seg]) t).
+  unfold wp. rewrite flat_map_app. fold (wp pre t). fold (wp [seg] t).
+  change (get_policy_loop seg (wp pre t ++ wp [seg] t) None)
+    with (get_policy_loop seg (wp pre t ++ wp [seg] t) (option_map acc None)).
+  rewrite (gp_pre seg t v R pre Hne (wp [seg] t) None), fold_left_app. cbn [fold_left wp flat_map].
+  fold (lp_step v).
+  destruct (tree_get seg t) as [lf|] eqn:G.
+  - destruct (repr_some _ _ _ _ R G) as [He Hp]. cbn [app get_policy_loop]. rewrite He, Hp, String.eqb_refl.
+    destruct (v false seg); cbn [option_map]; [reflexivity|].
+    unfold lp_step at 2. destruct (v true seg); reflexivity.
+  - destruct (repr_none _ _ _ R G) as [He Hp]. cbn [app get_policy_loop]. rewrite He.
+    unfold lp_step at 1. rewrite Hp. reflexivity.
+Qed.
+
+Lemma lookup_decide_spec t v n need : repr t v -> lookup_decide t n need = dec_of (applicable v n) need.
+Proof.
+  intros R. unfold lookup_decide. rewrite (get_policy_spec t v n R).
+  destruct (applicable v n); cbn [option_map dec_of]; [apply enforce_grants|reflexivity].
+Qed.
+
+Definition base_dec (good : level -> bool) (o : option level) : decision :=
+  match o with Some l => if good l then Allow else Deny | None => Default end.
+
+Lemma kwp_base_spec t v : repr t v -> forall L cur,
+  kwp_base (wp L t) (base_dec is_write cur) = base_dec is_write (fold_left (lp_step v) L cur).
+Proof.
+  intros R. induction L as [|x L IH]; intros cur; [reflexivity|].
+  cbn [wp flat_map fold_left]. fold (wp L t). destruct (tree_get x t) as [lf|] eqn:G.
+  - destruct (repr_some _ _ _ _ R G) as [_ Hp]. cbn [app kwp_base]. rewrite <- IH. f_equal.
+    rewrite Hp. unfold lp_step. destruct (v true x) as [[]|]; reflexivity.
+  - destruct (repr_none _ _ _ R G) as [_ Hp]. cbn [app].
+    replace (lp_step v cur x) with cur by (unfold lp_step; rewrite Hp; reflexivity). apply IH.
+Qed.
+
+Lemma srp_base_spec t v : repr t v -> forall L cur,
+  srp_base (wp L t) (base_dec is_rw cur) = base_dec is_rw (fold_left (lp_step v) L cur).
+Proof.
+  intros R. induction L as [|x L IH]; intros cur; [reflexivity|].
+  cbn [wp flat_map fold_left]. fold (wp L t). destruct (tree_get x t) as [lf|] eqn:G.
+  - destruct (repr_some _ _ _ _ R G) as [_ Hp]. cbn [app srp_base]. rewrite <- IH. f_equal.
+    rewrite Hp. unfold lp_step. destruct (v true x) as [[]|]; reflexivity.
+  - destruct (repr_none _ _ _ R G) as [_ Hp]. cbn [app].
+    replace (lp_step v cur x) with cur by (unfold lp_step; rewrite Hp; reflexivity). apply IH.
+Qed.
+
+(* ---- Walk / WalkPrefix: a test over the stored leaves is a test over the rules ---- *)
+
+Lemma tree_existsb t v S (F : string -> option access -> option access -> bool) :
+  wf_tree t -> repr t v -> covers S v -> (forall k, F k None None = false) ->
+  existsb (fun e => F (fst e) (l_exact (snd e)) (l_prefix (snd e))) t
+  = existsb (fun n => F n (option_map acc (v false n)) (option_map acc (v true n))) S.
+Proof.
+  intros W R C F0. apply bool_eq_iff. rewrite !existsb_exists. split.
+  - intros ([k lf] & Hin & HF). cbn [fst snd] in HF.
+    assert (G : tree_get k t = Some lf) by (apply (In_alookup _ String.eqb_eq); assumption).
+    destruct (repr_some _ _ _ _ R G) as [He Hp]. exists k. rewrite <- He, <- Hp. split; [|exact HF].
+    destruct (v false k) as [l|] eqn:E1; [apply (C false k); congruence|].
+    destruct (v true k) as [l|] eqn:E2; [apply (C true k); congruence|].
+    cbn in He, Hp. rewrite He, Hp, F0 in HF. discriminate.
+  - intros (n & Hin & HF). destruct (tree_get n t) as [lf|] eqn:G.
+    + destruct (repr_some _ _ _ _ R G) as [He Hp]. exists (n, lf). split.
+      * apply (alookup_In _ String.eqb_eq), G.
+      * cbn [fst snd]. rewrite He, Hp. exact HF.
+    + destruct (repr_none _ _ _ R G) as [He Hp]. rewrite He, Hp in HF. cbn in HF. rewrite F0 in HF. discriminate.
+Qed.
+
+Lemma leaf_eta lf : lf = Leaf (l_exact lf) (l_prefix lf).
+Proof. destruct lf; reflexivity. Qed.
+
+Lemma covers_empty S v l : covers S v -> v true EmptyString = Some l -> In EmptyString S.
+Proof. intros C E. apply (C true). congruence. Qed.
+
+Lemma any_allowed_spec t v S need :
+  wf_tree t -> repr t v -> covers S v -> any_allowed t need = spec_any v S need.
+Proof.
+  intros W R C. unfold any_allowed, spec_any.
+  assert (D0 : match tree_get EmptyString t with Some lf => leaf_any need lf true | None => Default end
+               = dec_of (v true EmptyString) need).
+  { destruct (tree_get EmptyString t) as [lf|] eqn:G.
+    - destruct (repr_some _ _ _ _ R G) as [_ Hp]. unfold leaf_any. rewrite Hp. cbn [orb].
+      destruct (v true EmptyString); cbn [option_map dec_of]; [apply enforce_grants|reflexivity].
+    - destruct (repr_none _ _ _ R G) as [_ Hp]. rewrite Hp. reflexivity. }
+  rewrite D0.
+  assert (E1 : existsb (fun e => decision_eqb (leaf_any need (snd e) false) Allow) t
+               = existsb (fun n => decision_eqb (leaf_any need (Leaf (option_map acc (v false n)) (option_map acc (v true n))) false) Allow) S).
+  { rewrite <- (tree_existsb t v S (fun _ e p => decision_eqb (leaf_any need (Leaf e p) false) Allow) W R C) by reflexivity.
+    apply existsb_ext'. intros [k lf]. cbn [fst snd]. rewrite <- leaf_eta. reflexivity. }
+  rewrite E1. unfold rules_at.
+  rewrite existsb_flat_map.
+  assert (E : forall n, decision_eqb (leaf_any need (Leaf (option_map acc (v false n)) (option_map acc (v true n))) false) Allow
+                      = existsb (fun l => grants l need) (olist (v false n) ++ olist (v true n))).
+  { intros n. unfold leaf_any. cbn [l_exact l_prefix].
+    destruct (v false n) as [le|], (v true n) as [lp|]; cbn [option_map olist app existsb is_none orb];
+      rewrite ?enforce_grants; repeat match goal with |- context [grants ?l need] => destruct (grants l need) end;
+      reflexivity. }
+  rewrite (existsb_ext' _ _ S E).
+  destruct (existsb (fun x => existsb (fun l => grants l need) (olist (v false x) ++ olist (v true x))) S) eqn:Ex.
+  - destruct (decision_eqb (dec_of (v true EmptyString) need) Allow); reflexivity.
+  - destruct (v true EmptyString) as [l|] eqn:E0; cbn [dec_of is_some]; [|reflexivity].
+    destruct (grants l need) eqn:Gl; [|reflexivity]. exfalso.
+    assert (Hin := covers_empty S v l C E0).
+    assert (existsb (fun x => existsb (fun l => grants l need) (olist (v false x) ++ olist (v true x))) S = true).
+    { apply existsb_exists. exists EmptyString. split; [exact Hin|]. rewrite existsb_app, E0. cbn. rewrite Gl.
+      apply orb_true_r. }
+    congruence.
+Qed.
+
+Lemma all_allowed_spec t v S need :
+  wf_tree t -> repr t v -> covers S v -> all_allowed t need = spec_all v S need.
+Proof.
+  intros W R C. unfold all_allowed, spec_all.
+  assert (D0 : match tree_get EmptyString t with Some lf => leaf_all need lf true | None => Default end
+               = dec_of (v true EmptyString) need).
+  { destruct (tree_get EmptyString t) as [lf|] eqn:G.
+    - destruct (repr_some _ _ _ _ R G) as [_ Hp]. unfold leaf_all. rewrite Hp. cbn [orb].
+      destruct (v true EmptyString); cbn [option_map dec_of]; [apply enforce_grants|reflexivity].
+    - destruct (repr_none _ _ _ R G) as [_ Hp]. rewrite Hp. reflexivity. }
+  rewrite D0.
+  assert (E1 : existsb (fun e => decision_eqb (leaf_all need (snd e) false) Deny) t
+               = existsb (fun n => decision_eqb (leaf_all need (Leaf (option_map acc (v false n)) (option_map acc (v true n))) false) Deny) S).
+  { rewrite <- (tree_existsb t v S (fun _ e p => decision_eqb (leaf_all need (Leaf e p) false) Deny) W R C) by reflexivity.
+    apply existsb_ext'. intros [k lf]. cbn [fst snd]. rewrite <- leaf_eta. reflexivity. }
+  rewrite E1. unfold rules_at.
+  rewrite existsb_flat_map.
+  assert (E : forall n, decision_eqb (leaf_all need (Leaf (option_map acc (v false n)) (option_map acc (v true n))) false) Deny
+                      = existsb (fun l => negb (grants l need)) (olist (v false n) ++ olist (v true n))).
+  { intros n. unfold leaf_all. cbn [l_exact l_prefix].
+    destruct (v false n) as [le|], (v true n) as [lp|]; cbn [option_map olist app existsb is_none orb];
+      rewrite ?enforce_grants; repeat match goal with |- context [grants ?l need] => destruct (grants l need) end;
+      reflexivity. }
+  rewrite (existsb_ext' _ _ S E).
+  destruct (existsb (fun x => existsb (fun l => negb (grants l need)) (olist (v false x) ++ olist (v true x))) S) eqn:Ex.
+  - destruct (decision_eqb (dec_of (v true EmptyString) need) Deny); reflexivity.
+  - destruct (v true EmptyString) as [l|] eqn:E0; cbn [dec_of is_some]; [|reflexivity].
+    destruct (grants l need) eqn:Gl; [reflexivity|]. exfalso.
+    assert (Hin := covers_empty S v l C E0).
+    assert (existsb (fun x => existsb (fun l => negb (grants l need)) (olist (v false x) ++ olist (v true x))) S = true).
+    { apply existsb_exists. exists EmptyString. split; [exact Hin|]. rewrite existsb_app, E0. cbn. rewrite Gl.
+      apply orb_true_r. }
+    congruence.
+Qed.
+
+(* the WalkPrefix half shared by KeyWritePrefix and ServiceReadPrefix *)
+Lemma below_spec (bad : option access -> bool) (good : level -> bool) t v S p :
+  wf_tree t -> repr t v -> covers S v -> bad None = false ->
+  (forall l, bad (Some (acc l)) = negb (good l)) ->
+  existsb (fun e => bad (l_prefix (snd e)) || bad (l_exact (snd e))) (walk_prefix p t)
+  = existsb (fun l => negb (good l)) (rules_at v (filter (String.prefix p) S)).
+Proof.
+  intros W R C B0 B1. unfold walk_prefix, rules_at. rewrite existsb_filter, existsb_flat_map, existsb_filter.
+  rewrite (tree_existsb t v S (fun k e pf => String.prefix p k && (bad pf || bad e)) W R C)
+    by (intros k; rewrite B0; apply andb_false_r).
+  apply existsb_ext'. intros n. f_equal. rewrite existsb_app.
+  destruct (v false n), (v true n); cbn [option_map olist existsb]; rewrite ?B0, ?B1, ?orb_false_r;
+    try reflexivity; apply orb_comm.
+Qed.
+
+Lemma not_write_spec l : not_write (Some (acc l)) = negb (is_write l).
+Proof. destruct l; reflexivity. Qed.
+Lemma not_rw_spec l : not_rw (Some (acc l)) = negb (is_rw l).
+Proof. destruct l; reflexivity. Qed.
+
+Lemma key_write_prefix_spec t v S p :
+  wf_tree t -> repr t v -> covers S v -> key_write_prefix t p = spec_subtree is_write v S p.
+Proof.
+  intros W R C. unfold key_write_prefix, spec_subtree, walk_path.
+  change (flat_map _ (prefixes p)) with (wp (prefixes p) t).
+  assert (B : kwp_base (wp (prefixes p) t) Default = base_dec is_write (longest_prefix v p))
+    by apply (kwp_base_spec t v R (prefixes p) None).
+  rewrite !B.
+  rewrite (below_spec not_write is_write t v S p W R C eq_refl not_write_spec).
+  destruct (longest_prefix v p) as [l|]; cbn [base_dec]; [destruct (is_write l)|]; cbn [negb decision_eqb];
+    try reflexivity;
+    destruct (existsb (fun l => negb (is_write l)) (rules_at v (filter (String.prefix p) S))); reflexivity.
+Qed.
+
+Lemma service_read_prefix_spec t v S p :
+  wf_tree t -> repr t v -> covers S v -> service_read_prefix t p = spec_subtree is_rw v S p.
+Proof.
+  intros W R C. unfold service_read_prefix, spec_subtree, walk_path.
+  change (flat_map _ (prefixes p)) with (wp (prefixes p) t).
+  assert (B : srp_base (wp (prefixes p) t) Default = base_dec is_rw (longest_prefix v p))
+    by apply (srp_base_spec t v R (prefixes p) None).
+  rewrite !B.
+  rewrite (below_spec not_rw is_rw t v S p W R C eq_refl not_rw_spec).
+  destruct (longest_prefix v p) as [l|]; cbn [base_dec]; [destruct (is_rw l)|]; cbn [negb];
+    destruct (existsb (fun l => negb (is_rw l)) (rules_at v (filter (String.prefix p) S))); reflexivity.
+Qed.
+
+(* ================================================================ Part 4: the authorizer of a policy list *)
+
+Lemma pfold_some ps : forall x,
+  fold_left pstep ps (Some x) = Some (fold_left (fun cur p => pmax p cur) ps x).
+Proof. induction ps as [|p ps IH]; intros x; cbn [fold_left]; [reflexivity|]. apply IH. Qed.
+
+Lemma plevels_map {A} (f : A -> pstr) l : plevels (map f l) = flat_map (fun x => olist (doc_level (f x))) l.
+Proof. unfold plevels. rewrite flat_map_concat_map, map_map, <- flat_map_concat_map. reflexivity. Qed.
+
+Lemma canon_pols l : forallb canonical_rule l = true ->
+  map r_pol l = map PCanon (flat_map (fun r => olist (doc_level (r_pol r))) l)
+  /\ forallb canon_or_empty (map r_int l) = true.
+Proof.
+  induction l as [|r l IH]; intros H; [split; reflexivity|].
+  cbn [forallb] in H. apply andb_true_iff in H as [Hr H]. destruct (IH H) as [E1 E2].
+  unfold canonical_rule in Hr. apply andb_true_iff in Hr as [Hp Hi].
+  cbn [map flat_map forallb]. rewrite Hi, E2. split; [|reflexivity].
+  destruct (r_pol r); try discriminate. cbn [doc_level olist app map]. f_equal. exact E1.
+Qed.
+
+Lemma forallb_filter {A} (f g : A -> bool) l : forallb f l = true -> forallb f (filter g l) = true.
+Proof.
+  rewrite !forallb_forall. intros H x Hx. apply filter_In in Hx as [Hx _]. apply H, Hx.
+Qed.
+
+Lemma all_rules_canonical ps : forallb canonical ps = true -> forallb canonical_rule (all_rules ps) = true.
+Proof.
+  induction ps as [|p ps IH]; intros H; [reflexivity|].
+  cbn [forallb] in H. apply andb_true_iff in H as [Hp H].
+  cbn [all_rules flat_map]. rewrite forallb_app. fold (all_rules ps). rewrite (IH H), andb_true_r.
+  unfold canonical in Hp. apply andb_true_iff in Hp as [_ Hp]. exact Hp.
+Qed.
+
+Section Merged.
+  Variable ps : list policy.
+  Hypothesis Hcanon : forallb canonical ps = true.
+
+  Let rs := all_rules ps.
+  Let ctx := fold_left merge_rule rs [].
+
+  Lemma ctx_nodup : NoDup (map fst ctx).
+  Proof. apply merge_fold_nodup. constructor. Qed.
+
+  Lemma rs_canon k pf n : forallb canonical_rule (matching rs k pf n) = true.
+  Proof. apply forallb_filter, all_rules_canonical, Hcanon. Qed.
+
+  Lemma ctx_pol k pf n :
+    option_map v_pol (lookup (k, pf, n) ctx) = option_map PCanon (eff rs k pf n).
+  Proof.
+    unfold ctx. rewrite merge_fold_pol. cbn [alookup option_map].
+    change (keyed rs (k, pf, n)) with (matching rs k pf n).
+    destruct (canon_pols _ (rs_canon k pf n)) as [-> _].
+    apply (pfold_canon _ None).
+  Qed.
+
+  Lemma ctx_int pf n val : lookup (KService, pf, n) ctx = Some val ->
+    v_int val = pstr_of (strongest (flat_map (fun r => olist (doc_level (r_int r))) (matching rs KService pf n))).
+  Proof.
+    intros L. assert (H := merge_fold_int rs [] pf n). fold ctx in H. rewrite L in H.
+    cbn [alookup option_map] in H. change (keyed rs (KService, pf, n)) with (matching rs KService pf n) in H.
+    destruct (canon_pols _ (rs_canon KService pf n)) as [_ Hc].
+    rewrite (pfold_canon_or_empty_none _ Hc) in H.
+    destruct (map r_int (matching rs KService pf n)) eqn:E; [discriminate|]. rewrite <- E in H.
+    rewrite plevels_map in H. congruence.
+  Qed.
+
+  Lemma merged_ctx : m_rules (fold_left merge_policy ps mctx_init) = ctx.
+  Proof. apply merge_policies_rules. Qed.
+
+  Lemma merged_scalar (f : policy -> pstr) (g : mctx -> pstr) :
+    (forall c p, g (merge_policy c p) = merge_scalar (f p) (g c)) -> g mctx_init = PEmpty ->
+    forallb canon_or_empty (map f ps) = true ->
+    g (fold_left merge_policy ps mctx_init) = pstr_of (scalar f ps).
+  Proof.
+    intros Hg H0 Hc. rewrite (merge_policies_scalar f g Hg), H0.
+    assert (H := pfold_canon_or_empty _ Hc None). rewrite pfold_some in H. injection H as H.
+    cbn [pstr_of] in H. rewrite H. unfold scalar. rewrite <- plevels_map. reflexivity.
+  Qed.
+
+  Lemma scalars_canon (f : policy -> pstr) :
+    (forall p, canonical p = true -> canon_or_empty (f p) = true) -> forallb canon_or_empty (map f ps) = true.
+  Proof.
+    intros Hf. apply forallb_forall. intros x Hx. apply in_map_iff in Hx as (p & <- & Hp).
+    apply Hf. revert Hp. apply forallb_forall. exact Hcanon.
+  Qed.
+
+  (* any policy whose scalars are the merged ones and whose rules are the merged rules in some
+     order (Go's map iteration order in fill) *)
+  Variable p' : policy.
+  Hypothesis Hacl : p_acl p' = p_acl (merge_policies ps).
+  Hypothesis Hkeyring : p_keyring p' = p_keyring (merge_policies ps).
+  Hypothesis Hoperator : p_operator p' = p_operator (merge_policies ps).
+  Hypothesis Hmesh : p_mesh p' = p_mesh (merge_policies ps).
+  Hypothesis Hpeering : p_peering p' = p_peering (merge_policies ps).
+  Hypothesis Hperm : Permutation (p_rules p') (p_rules (merge_policies ps)).
+
+  Definition entry_rule (e : rkey * mval) : rule :=
+    let '((k, pf, n), v) := e in Rule k pf n (v_pol v) (v_int v).
+
+  Lemma filled_rules : p_rules (merge_policies ps) = map entry_rule ctx.
+  Proof. unfold merge_policies, fill. cbn [p_rules]. rewrite merged_ctx. reflexivity. Qed.
+
+  Lemma filled_keys : map rule_key (map entry_rule ctx) = map fst ctx.
+  Proof. rewrite map_map. apply map_ext. intros [[[k pf] n] v]. reflexivity. Qed.
+
+  Lemma rules'_nodup : NoDup (map rule_key (p_rules p')).
+  Proof.
+    eapply Permutation_NoDup; [apply Permutation_sym, Permutation_map, Hperm|].
+    rewrite filled_rules, filled_keys. apply ctx_nodup.
+  Qed.
+
+  Lemma rules'_in r : In r (p_rules p') <-> exists val, lookup (rule_key r) ctx = Some val /\ r = entry_rule (rule_key r, val).
+  Proof.
+    split.
+    - intros H. eapply Permutation_in in H; [|exact Hperm]. rewrite filled_rules in H.
+      apply in_map_iff in H as ([[[k pf] n] val] & <- & Hin). exists val. split; [|reflexivity].
+      apply (In_alookup _ rkey_eqb_eq); [apply ctx_nodup|exact Hin].
+    - intros (val & L & E). eapply Permutation_in; [apply Permutation_sym, Hperm|]. rewrite filled_rules.
+      apply in_map_iff. exists (rule_key r, val). split; [symmetry; exact E|].
+      apply (alookup_In _ rkey_eqb_eq), L.
+  Qed.
+
+  Lemma rules'_keys key : In key (map rule_key (p_rules p')) <-> lookup key ctx <> None.
+  Proof.
+    split.
+    - intros H. apply in_map_iff in H as (r & <- & Hr). apply rules'_in in Hr as (val & L & _). congruence.
+    - intros H. destruct (lookup key ctx) as [val|] eqn:L; [|contradiction].
+      apply in_map_iff. exists (entry_rule (key, val)). destruct key as [[k pf] n]. split; [reflexivity|].
+      apply rules'_in. exists val. split; [exact L|reflexivity].
+  Qed.
+
+  (* the Intentions field of every entry is a fold of canonical-or-empty strings *)
+  Lemma ctx_int_canon key val : lookup key ctx = Some val -> canon_or_empty (v_int val) = true.
+  Proof.
+    assert (G : forall l c, forallb canonical_rule l = true ->
+                (forall key val, alookup rkey_eqb key c = Some val -> canon_or_empty (v_int val) = true) ->
+                forall key val, alookup rkey_eqb key (fold_left merge_rule l c) = Some val -> canon_or_empty (v_int val) = true).
+    { induction l as [|r l IH]; intros c Hl Hc key0 val0; cbn [fold_left]; [apply Hc|].
+      cbn [forallb] in Hl. apply andb_true_iff in Hl as [Hr Hl]. apply IH; [exact Hl|].
+      intros key' val'. rewrite merge_rule_lookup. destruct (rkey_eqb key' (rule_key r)); [|apply Hc].
+      intros [= <-]. unfold canonical_rule in Hr. apply andb_true_iff in Hr as [_ Hri].
+      unfold combine. destruct (alookup rkey_eqb (rule_key r) c) as [e|] eqn:Le; [|exact Hri].
+      specialize (Hc _ _ Le).
+      destruct (r_kind r); try (destruct (takes_precedence_over (r_pol r) (v_pol e)); assumption).
+      cbn [v_int]. unfold pmax. destruct (takes_precedence_over (r_int r) (v_int e)); assumption. }
+    apply (G rs [] (all_rules_canonical ps Hcanon)). intros ? ? [=].
+  Qed.
+
+  Lemma rules'_canonical : forallb canonical_rule (p_rules p') = true.
+  Proof.
+    apply forallb_forall. intros r Hr. apply rules'_in in Hr as (val & L & E).
+    destruct (rule_key r) as [[k pf] n] eqn:Ek. rewrite E. cbn [entry_rule]. unfold canonical_rule. cbn [r_pol r_int].
+    rewrite (ctx_int_canon _ _ L), andb_true_r.
+    assert (Hp := ctx_pol k pf n). rewrite L in Hp. cbn [option_map] in Hp.
+    destruct (eff rs k pf n) as [l|]; [|discriminate]. injection Hp as ->. reflexivity.
+  Qed.
+
+  Variable a : authorizer.
+  Hypothesis Hload : load_rules p' = Some a.
+
+  Lemma load_inv : exists a1,
+    fold_left load_rule (p_rules p') (Some authorizer_empty) = Some a1
+    /\ (forall k, tree_of a k = tree_of a1 k) /\ a_intention a = a_intention a1 /\ a_traffic a = a_traffic a1
+    /\ load_scalar (p_acl p') = Some (a_acl a) /\ load_scalar (p_keyring p') = Some (a_keyring a)
+    /\ load_scalar (p_operator p') = Some (a_operator a) /\ load_scalar (p_mesh p') = Some (a_mesh a)
+    /\ load_scalar (p_peering p') = Some (a_peering a).
+  Proof.
+    unfold load_rules in Hload.
+    destruct (fold_left load_rule (p_rules p') (Some authorizer_empty)) as [a1|]; [|discriminate].
+    destruct (load_scalar (p_acl p')), (load_scalar (p_keyring p')), (load_scalar (p_operator p')),
+             (load_scalar (p_mesh p')), (load_scalar (p_peering p')); try discriminate.
+    injection Hload as <-. exists a1. repeat split; try reflexivity; try (intros []; reflexivity).
+  Qed.
+
+  Lemma auth_wf : wf_auth a.
+  Proof.
+    destruct load_inv as (a1 & F & T & I & Tr & _).
+    destruct (load_fold_spec _ rules'_nodup _ _ F) as (_ & _ & W). specialize (W authorizer_empty_wf).
+    destruct W as (W1 & W2 & W3). split; [intros k; rewrite T; apply W1|]. split; congruence.
+  Qed.
+
+  Lemma auth_kslot k pf n : kslot a k pf n = option_map acc (eff rs k pf n).
+  Proof.
+    destruct load_inv as (a1 & F & T & I & Tr & _).
+    destruct (load_fold_spec _ rules'_nodup _ _ F) as (R & N & _).
+    unfold kslot. rewrite T. fold (kslot a1 k pf n).
+    assert (Hp := ctx_pol k pf n).
+    destruct (lookup (k, pf, n) ctx) as [val|] eqn:L.
+    - assert (Hin : In (entry_rule ((k, pf, n), val)) (p_rules p')).
+      { apply rules'_in. exists val. split; [exact L|reflexivity]. }
+      destruct (R _ Hin) as [Rk _]. cbn [entry_rule r_kind r_prefix r_name r_pol] in Rk. rewrite Rk.
+      cbn [option_map] in Hp. destruct (eff rs k pf n) as [l|]; [|discriminate]. injection Hp as ->. reflexivity.
+    - destruct (N k pf n) as [Nk _]; [rewrite rules'_keys, L; auto|]. rewrite Nk.
+      cbn [option_map] in Hp. destruct (eff rs k pf n); [discriminate|]. reflexivity.
+  Qed.
+
+  Lemma auth_islot pf n : islot a pf n = option_map acc (eff_int rs pf n).
+  Proof.
+    destruct load_inv as (a1 & F & T & I & Tr & _).
+    destruct (load_fold_spec _ rules'_nodup _ _ F) as (R & N & _).
+    unfold islot. rewrite I. fold (islot a1 pf n).
+    assert (Hp := ctx_pol KService pf n). unfold eff_int.
+    destruct (lookup (KService, pf, n) ctx) as [val|] eqn:L.
+    - assert (Hin : In (entry_rule ((KService, pf, n), val)) (p_rules p')).
+      { apply rules'_in. exists val. split; [exact L|reflexivity]. }
+      destruct (R _ Hin) as [_ Ri]. specialize (Ri eq_refl).
+      cbn [entry_rule r_kind r_prefix r_name r_pol r_int] in Ri. rewrite Ri.
+      cbn [option_map] in Hp. destruct (eff rs KService pf n) as [s|]; [|discriminate]. injection Hp as ->.
+      rewrite (ctx_int pf n val L).
+      destruct (strongest _) as [i|]; [reflexivity|]. destruct s; reflexivity.
+    - destruct (N KService pf n) as [_ Ni]; [rewrite rules'_keys, L; auto|]. rewrite (Ni eq_refl).
+      cbn [option_map] in Hp. destruct (eff rs KService pf n); [discriminate|]. reflexivity.
+  Qed.
+
+  Lemma auth_traffic : a_traffic a = [].
+  Proof. apply auth_wf. Qed.
+
+  Lemma merged_scalars :
+    p_acl p' = pstr_of (scalar p_acl ps) /\ p_keyring p' = pstr_of (scalar p_keyring ps)
+    /\ p_operator p' = pstr_of (scalar p_operator ps) /\ p_mesh p' = pstr_of (scalar p_mesh ps)
+    /\ p_peering p' = pstr_of (scalar p_peering ps).
+  Proof.
+    rewrite Hacl, Hkeyring, Hoperator, Hmesh, Hpeering. unfold merge_policies, fill.
+    cbn [p_acl p_keyring p_operator p_mesh p_peering].
+    repeat split; (apply merged_scalar; [reflexivity|reflexivity|]); apply scalars_canon; intros p Hp;
+      unfold canonical in Hp; repeat (apply andb_true_iff in Hp as [Hp ?]); assumption.
+  Qed.
+
+  Lemma load_scalar_pstr_of o : load_scalar (pstr_of o) = Some (option_map acc o).
+  Proof. destruct o; reflexivity. Qed.
+
+  Lemma auth_scalars :
+    a_acl a = option_map acc (scalar p_acl ps) /\ a_keyring a = option_map acc (scalar p_keyring ps)
+    /\ a_operator a = option_map acc (scalar p_operator ps) /\ a_mesh a = option_map acc (scalar p_mesh ps)
+    /\ a_peering a = option_map acc (scalar p_peering ps).
+  Proof.
+    destruct load_inv as (a1 & _ & _ & _ & _ & L1 & L2 & L3 & L4 & L5).
+    destruct merged_scalars as (E1 & E2 & E3 & E4 & E5).
+    rewrite E1, load_scalar_pstr_of in L1. rewrite E2, load_scalar_pstr_of in L2.
+    rewrite E3, load_scalar_pstr_of in L3. rewrite E4, load_scalar_pstr_of in L4.
+    rewrite E5, load_scalar_pstr_of in L5. repeat split; congruence.
+  Qed.
+End Merged.
